@@ -66,3 +66,7 @@ add("C16", "property-based testing (Hypothesis) with template-reuse generation a
     "Generated-input search over simulated traces in which operator templates are instantiated repeatedly with variations (dropped launch, renamed kernel, same-name and other-name wrappers, dropped partners) x operator name/substring x min_pattern_len x top_k: the returned table must equal pattern -> (count, kernel duration sum, operator duration sum) computed from the model call tree at the shallowest matching depth, with rows in non-increasing count; totals-only when kernel start order is ambiguous.",
     "Trusts hv/model/calltree.py; no zero-duration host events, no sync calls, no autograd thread in these traces; exactly one profiler 'Trace' span entry.",
     "DESIGN.md §5 C16")
+add("C17", "property-based testing (Hypothesis): differential check against a dictionary-count reference model + partition/metamorphic (self-comparison) relations",
+    "Generated-input search over pairs of independently simulated rank sets sharing a small vocabulary x rank selection (incl. proper subsets of >= 2 ranks) x iteration selection x device filter x long/short names: counts and total durations per name per side are recomputed from the raw entries with the C12 iteration model, diffs = test - control, index = union of names; the five ops_diff classes must be pairwise disjoint, cover every name and match their definitions; a trace compared with itself yields only 'unchanged' and zero differences.",
+    "Trusts hv/model/trace.py iterations and the hand-written short names in hv/gen/vocab.py; every trace has >= 1 profiler step; no sync records on stream -1.",
+    "DESIGN.md §5 C17")
